@@ -204,6 +204,18 @@ def fit_w(case, Xs, Ys):
     return W, "cutoff", dict(U=U[:, :bc], S=S[:bc], V=Vt[:bc].T, c=bc, fit_err=best)
 
 
+def eff_cond(sv):
+    """condition number over the numerically non-zero singular values; (cond, ill) where ill
+    flags singular values in the grey zone between 'zero' and 'well separated'."""
+    sv = np.asarray(sv, dtype=float)
+    if sv.size == 0 or sv.max() <= 0:
+        return float("inf"), True
+    rel = sv / sv.max()
+    ill = bool(np.any((rel > 1e-13) & (rel < 1e-7)))
+    nz = rel[rel >= 1e-7]
+    return float(1.0 / nz.min()), ill
+
+
 def hints(case):
     X, Y = np.array(case["X"]), np.array(case["Y"])
     tr, te = resolve_split(case)
@@ -211,8 +223,8 @@ def hints(case):
     Ys_tr, Ys_te = standardise(Y[tr], Y[tr]), standardise(Y[tr], Y[te])
     p, q = X.shape[1], Y.shape[1]
     sx = np.linalg.svd(Xs_tr, compute_uv=False)
-    cond = float(sx.max() / sx.min()) if sx.min() > 0 else float("inf")
-    h = dict(train=tr, test=te, cond=cond, p=p, q=q, gated=None)
+    cond, ill = eff_cond(sx)
+    h = dict(train=tr, test=te, cond=cond, p=p, q=q, gated="ill-conditioned training source" if ill else None)
     if case["measure"] in ("gre", "grd"):
         W, kind, extra = fit_w(case, Xs_tr, Ys_tr)
         h.update(W=W, kind=kind, extra=extra)
@@ -237,14 +249,17 @@ def hints(case):
             lx, ly = Xs_tr[nb], Ys_tr[nb]
             lxc, lyc = lx - lx.mean(axis=0), ly - ly.mean(axis=0)
             sl = np.linalg.svd(lxc, compute_uv=False)
-            conds.append(float(sl.max() / sl.min()) if sl.min() > 1e-300 else float("inf"))
+            cl, ill_l = eff_cond(sl)
+            conds.append(cl)
+            if ill_l:
+                h["gated"] = "ill-conditioned local design"
             Wi, kind, extra = fit_w(case, lxc, lyc) if case["est"] != "default" else (None, "default", None)
             nbrs.append(nb)
             Ws.append(Wi)
         h.update(nbrs=nbrs, Ws=Ws, kind="ridge" if case["est"] != "default" else "default",
                  extra=0.0 if case["est"] == "ls" else case["alpha"],
                  min_gap=min(gaps) if gaps else None, cond=max([cond] + conds))
-        if gaps and min(gaps) < 1e-9:
+        if gaps and min(gaps) < 1e-8:
             h["gated"] = "near-tie in the neighbour order"
     return h
 
@@ -314,6 +329,14 @@ def parse_float_lists(out):
 # ---------------------------------------------------------------- property oracle (search)
 def oracle(case, rec, rng_seed=0, deep=True):
     """C13 stated directly on the implementation.  Returns None or a message."""
+    try:
+        return _oracle(case, rec, rng_seed, deep)
+    except Exception as e:  # noqa  (a metamorphic re-run of the implementation raised)
+        return "%s(%s, %s) raised %s on a transformed input: %s" % (
+            case["measure"], case["est"], case["width"], type(e).__name__, str(e)[:200])
+
+
+def _oracle(case, rec, rng_seed=0, deep=True):
     if "error" in rec:
         return "%s(%s wider=%s) raised %s: %s" % (case["measure"], case["est"], case["width"],
                                                   rec["error"], rec.get("error_msg"))
@@ -384,8 +407,9 @@ def oracle(case, rec, rng_seed=0, deep=True):
 
 
 def finding_key(case, msg):
-    if case["measure"] == "grd" and case["width"] == "wider" and "raised ValueError" in (msg or ""):
-        return "F11: reconstruction_distortion with X wider than Y raises (shape mismatch)"
+    if case["measure"] == "grd" and case["width"] == "wider":
+        # raises for q >= 2, silently broadcasts a single target column for q = 1
+        return "F11: reconstruction_distortion with X wider than Y (unpadded linear prediction)"
     return None
 
 
@@ -448,21 +472,35 @@ def run(ctx):
     n_search = 0
     reported = set()
 
+    pending = {}          # (finding key, message class) -> smallest failing case
+
     def report(i, msg, corr):
         if i in reported:
             return
         reported.add(i)
+        key = finding_key(cases[i], msg)
+        if msg and key:
+            # one replay per finding and failure mode: keep the smallest input
+            cls = (key, "raised" if " raised " in msg else re.sub(r"[0-9.e+-]+", "#", msg)[:60])
+            size = len(cases[i]["X"]) * (len(cases[i]["X"][0]) + len(cases[i]["Y"][0]))
+            if cls not in pending or size < pending[cls][0]:
+                pending[cls] = (size, i, msg, corr)
+            stats.setdefault("failing_cases_by_finding", {})
+            stats["failing_cases_by_finding"][key] = stats["failing_cases_by_finding"].get(key, 0) + 1
+            return
         rep = dict(case=cases[i], observed=recs[i], correspondence=corr)
         if msg:
-            C.report_violation(ctx, "C13 fails on the implementation: " + msg, rep,
-                               key=finding_key(cases[i], msg), found_input=True)
+            C.report_violation(ctx, "C13 fails on the implementation: " + msg, rep, key=key, found_input=True)
         else:
             rep["note"] = "model and implementation disagree but the property oracle accepts the output"
             C.report_violation(ctx, "correspondence reconstruction-measure model vs implementation broken",
                                rep, found_input=False)
     for i in sorted(set(mismatched)):
         n_search += 1
-        report(i, oracle(cases[i], recs[i], rng_seed=i), "*_case_ok (Model/Recon.v)")
+        msg = oracle(cases[i], recs[i], rng_seed=i)
+        if msg is None and cases[i]["measure"] == "grd" and cases[i]["width"] == "wider":
+            msg = "GRD with X wider than Y differs from the padded definition (model of the repaired code)"
+        report(i, msg, "*_case_ok (Model/Recon.v)")
     n_deep = 0
     deep_budget = 80 if ctx.quick else 600
     for i, (c, r) in enumerate(zip(cases, recs)):
@@ -474,6 +512,9 @@ def run(ctx):
         n_search += 1
         if msg:
             report(i, msg, "property oracle (search)")
+    for (key, _cls), (_size, i, msg, corr) in sorted(pending.items(), key=lambda kv: kv[1][0]):
+        C.report_violation(ctx, "C13 fails on the implementation: " + msg,
+                           dict(case=cases[i], observed=recs[i], correspondence=corr), key=key, found_input=True)
     for txt in corr_broken:
         C.report_violation(ctx, "correspondence shard did not evaluate", dict(coq_output=txt), found_input=False)
     if not po["ok"]:
